@@ -21,6 +21,7 @@ pub struct C07Case
 pub fn check(case: &C07Case) -> CaseOutcome
 {
     let mut o = CaseOutcome::default();
+    let _cfg_form = crate::sandbox::ConfigFormGuard::new((crate::engine::hash_of(case) % 3) as u8);
     let (tree, files, missing, _) = case.tree.render();
     let names: Vec<String> = files.iter().map(|f| f.0.clone()).collect();
     // reference run
